@@ -126,12 +126,12 @@ func writeEvidence(f *commonFlags, tot *Stats, wall float64, reported, known []s
 			"clause 4 uses the component-wise maximum of the layer counts over the voxels of the line",
 			"clause 6 (independent distance) is evaluated only for hZoom >= 10 and |lat| <= 80 and flags only distance > 1.01*radius + 0.05 m",
 			"transform.FitClearanceAroundExtendedSpatialID is used as the source of the layer counts, as the property statement does"},
-		"C19": {"tasks interleave at yield points only (statement-level atomicity between yields); lane B (real goroutines, -race, uninstrumented build) covers intra-statement races and is auxiliary",
+		"C19": {"tasks interleave at yield points only (statement-level atomicity between yields) in lanes A and R; lane B (real goroutines, -race, uninstrumented build) covers intra-statement races and is auxiliary",
+			"lane R: the simulated scheduler runs inside a race-detector build of the instrumented copy; hand-offs go through raw pipe system calls (no happens-before edge for the detector), the sync shims perform the simulated operation and then the real one, so the detector judges the library's own synchronisation with the semantics of the real sync package; a report counts only if one of the two access stacks has a frame of the library",
 			"package-level state is restored to its start-of-process value before every case, so that first-use (lazy initialisation) windows are re-opened in every case",
-			"a change of package state is a violation only if the writing task performed no synchronisation operation since its call began, or if two tasks changed the same component in calls that touched no synchronisation object in common",
-			"the access log holds instrumented statements only (package variables by first-level component, locals captured by go-closures by address); writes through aliases are seen by the state monitor, not by the race monitor",
-			"set-valued results are compared as sets when they differ in order only; a returned slice is overwritten by the harness after copying (a caller owns its result)",
-			"channels, select, sync.Cond and timers are not simulated: for a tree that uses them lane A is skipped and the verdict is lane B's; the same if goroutines appear that the simulator did not start; a run that stalls anyway ends with exit 2, not with a verdict"},
+			"lane A: a change of package state is a violation only if the writing task performed no synchronisation operation since its call began; whether synchronised accesses are ordered is the race detector's judgement (lanes R and B)",
+			"set-valued results are compared as sets when they differ in order only; in lane A a returned slice is overwritten by the harness after copying (a caller owns its result), in lane R it is not",
+			"channels, select, sync.Cond, timers and calls into dependencies that can start goroutines or block are not simulated: for a tree that uses them lanes A and R are skipped and the verdict is lane B's; the same if goroutines appear that the simulator did not start; a run that stalls anyway ends with exit 2, not with a verdict"},
 	}
 	ev := map[string]any{
 		"property_id": f.prop,
